@@ -33,6 +33,10 @@ var _ = Service("svc", func() {
 			Attribute("e", String, func() { Enum("a", "bc") })
 			Attribute("pat", String, func() { Pattern("^[a-z]+$") })
 			Attribute("ip", String, func() { Format(FormatIPv4) })
+			Attribute("ipp", String, func() {
+				Format(FormatIPv4)
+				Pattern("^1")
+			})
 			Attribute("hs", String, func() { MaxLength(2) })
 			Required("s")
 		})
